@@ -1,5 +1,5 @@
 SPECIFICATION Spec
-CONSTANTS Repaired = {7, 9}
+CONSTANTS Repaired = {7, 9, 10}
 INVARIANTS Judge
 POSTCONDITION AllConsumed
 CHECK_DEADLOCK FALSE
